@@ -705,6 +705,103 @@ pub async fn dg_receiver(sh: Sh, mux: Arc<Mux>, ep: u8, seed: u64, sent_by_peer:
     }
 }
 
+// ------------------------------------------------------------------ bind requests
+
+#[derive(Clone, Copy, Debug, PartialEq, Eq)]
+pub enum BindAnswer {
+    Accept,
+    Reject,
+    Drop,
+    Never,
+}
+
+#[derive(Clone, Debug)]
+pub struct BindPlan {
+    pub id: u64,
+    pub from: u8,
+    pub datagram_type: bool,
+    pub host_len: usize,
+    pub port: u16,
+    pub answer: BindAnswer,
+    pub answer_delay: u64,
+    pub call_delay: u64,
+}
+
+pub fn bind_host(seed: u64, id: u64, len: usize) -> Vec<u8> {
+    let mut v = vec![0u8; len];
+    prf_fill(mix(seed, 0xB1_0000 + id), 0, &mut v);
+    v
+}
+
+pub async fn bind_requester(sh: Sh, mux: Arc<Mux>, ep: u8, seed: u64, p: BindPlan) {
+    if p.call_delay > 0 {
+        tokio::time::sleep(Duration::from_millis(p.call_delay)).await;
+    }
+    let host = bind_host(seed, p.id, p.host_len);
+    let bt = if p.datagram_type { penguin_mux::frame::BindType::Datagram } else { penguin_mux::frame::BindType::Stream };
+    sh.api(ep, 0, Api::BindCall { id: p.id });
+    let r = mux.request_bind(&host, p.port, bt).await;
+    sh.api(ep, 0, Api::BindRet { id: p.id, res: match r { Ok(b) => format!("{b}"), Err(e) => err_name(&e) } });
+}
+
+/// Serve bind requests on `ep` according to the plans of the peer (matched by port, unique per plan).
+pub async fn bind_responder(sh: Sh, mux: Arc<Mux>, ep: u8, seed: u64, plans: Arc<Vec<BindPlan>>) {
+    let mut held = Vec::new();
+    let mut jobs = Vec::new();
+    loop {
+        match mux.next_bind_request().await {
+            Ok(req) => {
+                let plan = plans.iter().find(|p| p.port == req.port() && p.from != ep).cloned();
+                let Some(p) = plan else {
+                    sh.api(ep, 0, Api::BindSeen { id: u64::MAX, fields_ok: false, flow: req.flow_id() });
+                    continue;
+                };
+                let want_type = if p.datagram_type { penguin_mux::frame::BindType::Datagram } else { penguin_mux::frame::BindType::Stream };
+                let ok = req.host() == bind_host(seed, p.id, p.host_len).as_slice() && req.bind_type() == want_type && req.port() == p.port;
+                sh.api(ep, 0, Api::BindSeen { id: p.id, fields_ok: ok, flow: req.flow_id() });
+                match p.answer {
+                    BindAnswer::Never => held.push(req),
+                    _ => {
+                        let sh2 = sh.clone();
+                        jobs.push(sim::spawn(&sh, 8000 + p.id, async move {
+                            if p.answer_delay > 0 {
+                                tokio::time::sleep(Duration::from_millis(p.answer_delay)).await;
+                            } else {
+                                sim::jitter_yield(&sh2).await;
+                            }
+                            match p.answer {
+                                BindAnswer::Accept => {
+                                    sh2.api(ep, 0, Api::BindReply { id: p.id, how: "accept".into() });
+                                    req.reply(true).ok();
+                                }
+                                BindAnswer::Reject => {
+                                    sh2.api(ep, 0, Api::BindReply { id: p.id, how: "reject".into() });
+                                    req.reply(false).ok();
+                                }
+                                _ => {
+                                    sh2.api(ep, 0, Api::BindReply { id: p.id, how: "drop".into() });
+                                }
+                            }
+                            drop(req);
+                        }));
+                    }
+                }
+            }
+            Err(e) => {
+                sh.api(ep, 0, Api::BindNextErr { err: err_name(&e) });
+                break;
+            }
+        }
+    }
+    for j in jobs {
+        j.await.ok();
+    }
+    // requests that were never answered are released only now
+    for r in held {
+        std::mem::forget(r);
+    }
+}
+
 // ------------------------------------------------------------------ a complete run of the general workload
 
 #[derive(Clone, Debug)]
@@ -722,6 +819,7 @@ pub struct Scenario {
     pub faults: [Option<FaultPlan>; 2],
     /// which mux is dropped first at the end (2 = both at once)
     pub drop_first: u8,
+    pub binds: Vec<BindPlan>,
 }
 
 pub struct RunOut {
@@ -763,8 +861,31 @@ pub async fn general(sh: Sh, sc: Scenario) {
             dg_handles.push(sim::spawn(&sh, 7100 + u64::from(ep), dg_receiver(sh.clone(), muxes[ep as usize].clone(), ep, seed, theirs, pause, delay)));
         }
     }
+    // bind requests
+    let mut bind_req_handles = Vec::new();
+    let mut bind_resp_handles = Vec::new();
+    if !sc.binds.is_empty() {
+        let all = Arc::new(sc.binds.clone());
+        for ep in 0..2u8 {
+            if sc.cfg[ep as usize].bind_buf > 0 {
+                bind_resp_handles.push(sim::spawn(&sh, 8500 + u64::from(ep), bind_responder(sh.clone(), muxes[ep as usize].clone(), ep, seed, all.clone())));
+            }
+        }
+        for b in &sc.binds {
+            let never = b.answer == BindAnswer::Never && sc.cfg[1 - b.from as usize].bind_buf > 0;
+            let h = sim::spawn(&sh, 8600 + b.id, bind_requester(sh.clone(), muxes[b.from as usize].clone(), b.from, seed, b.clone()));
+            bind_req_handles.push((never, h));
+        }
+    }
     // wait for everything that must finish
     let mut leftovers = Vec::new();
+    for (never, h) in bind_req_handles {
+        if never {
+            leftovers.push(h);
+        } else {
+            h.await.ok();
+        }
+    }
     for (awaited, h) in openers {
         if awaited {
             h.await.ok();
@@ -796,12 +917,19 @@ pub async fn general(sh: Sh, sc: Scenario) {
     }
     // tear down
     drop(muxes);
+    sh.api(0, 0, Api::Teardown);
     // passive tasks hold clones of the mux handles; stop them so that the drops below are real
     for h in leftovers.iter() {
         h.abort();
     }
     for h in dg_handles.iter() {
         h.abort();
+    }
+    for h in bind_resp_handles.iter() {
+        h.abort();
+    }
+    for h in bind_resp_handles {
+        h.await.ok();
     }
     for h in leftovers {
         h.await.ok();
